@@ -85,8 +85,11 @@ fn ddmin_events(ctx: &mut Ctx, t: &mut Trace) {
         while start < len {
             let end = (start + chunk).min(len);
             let mut cand = t.clone();
+            // recovery deliveries (heal phase) are the subject of the recovery oracles: dropping
+            // the template refresh in front of them would "reproduce" trivially
+            let pinned = cand.events[start..end].iter().any(|e| matches!(e, Ev::Deliver { faults, .. } if faults.iter().any(|f| f == "heal" || f == "replay")));
             cand.events.drain(start..end);
-            if !cand.events.is_empty() && ctx.fails(&cand).is_some() {
+            if !pinned && !cand.events.is_empty() && ctx.fails(&cand).is_some() {
                 *t = cand;
                 n = (n - 1).max(2);
                 reduced = true;
